@@ -137,31 +137,23 @@ def _worker(args):
 
 
 def replay_loads(chk, label, consts, want_refusals, cli_every=6, procs=12):
+    """TLC's emissions are consumed as a stream: batches go to the worker pool while TLC is still running"""
     invs = ["Inv_Boundaries", "Inv_GridUniform", "Inv_NoLevelInsideGap", "Inv_DistinctLabels",
             "Inv_LevelBracketed", "Inv_LevelWhereverDefined"]
     cfg = tlc.cfg_text(consts, spec="Spec", invariants=invs + ["EmitInv"])
-    res = tlc.run("MCLoad", cfg, workers=12, invariants=invs, timeout=3000)
-    chk.add_tlc(res, label)
-    if res.get("violated"):
-        chk.violation("TLC: Load.tla violates its own invariant: " + res["error"][:600],
-                      {"kind": "tlc", "label": label, "error": res["error"][:3000]})
-        return
-    emits = res["emits"]
-    if not emits:
-        raise MachineryError("MCLoad emitted nothing")
-    random.Random(seed()).shuffle(emits)
-    items = list(enumerate(emits))
-    if want_refusals:      # C11 judges the refusals only
-        items = [(i, o) for i, o in items if o["out"]["refused"] != "none"]
-    else:
-        items = [(i, o) for i, o in items if o["out"]["refused"] == "none"]
-    jobs = [(items[i:i + 200], "api") for i in range(0, len(items), 200)]
-    sub = items[::cli_every]
-    jobs += [(sub[i:i + 50], "cli") for i in range(0, len(sub), 50)]
-    lookup = dict(items)
-    with mp.Pool(procs) as pool:
-        for (batch, mode), out in zip(jobs, pool.imap(_worker, jobs)):
-            for idx, diff, e0, zone in out:
+    pending, batch, n_seen = [], [], [0]
+    pool = mp.Pool(procs)
+
+    def flush(mode="api"):
+        if batch:
+            pending.append((list(batch), pool.apply_async(_worker, ((list(batch), mode),))))
+            del batch[:]
+
+    def drain(final):
+        while pending and (final or pending[0][1].ready() or len(pending) > 400):
+            items, fut = pending.pop(0)
+            lookup = dict(items)
+            for idx, diff, e0, zone in fut.get():
                 obj = lookup[idx]
                 chk.count("evaluations")
                 chk.count("traces_validated_against_impl")
@@ -169,11 +161,38 @@ def replay_loads(chk, label, consts, want_refusals, cli_every=6, procs=12):
                     (len({lab for _, lab in obj["out"]["grid"]}) >= 2)
                 if nt:
                     chk.count("distinct_nontrivial")
-                    chk.sample({"input_ticks": obj["in"], "spec_result": obj["out"], "mode": mode})
+                    chk.sample({"input_ticks": obj["in"], "spec_result": obj["out"]})
                 if diff:
-                    chk.violation("load (%s) on %s: %s" % (mode, json.dumps(obj["cfg"]), diff),
+                    chk.violation("load on %s: %s" % (json.dumps(obj["cfg"]), diff),
                                   {"kind": "load_config", "in": obj["in"], "cfg": obj["cfg"], "out": obj["out"],
-                                   "idx": idx, "mode": mode, "detail": diff})
+                                   "idx": idx, "mode": "api", "detail": diff})
+
+    def on_emit(obj):
+        idx = n_seen[0]
+        n_seen[0] += 1
+        refused = obj["out"]["refused"] != "none"
+        if refused != want_refusals:
+            return
+        batch.append((idx, obj))
+        if len(batch) >= 200:
+            flush()
+        if idx % cli_every == 0:
+            pending.append(([(idx, obj)], pool.apply_async(_worker, (([(idx, obj)], "cli"),))))
+        drain(False)
+    try:
+        res = tlc.run("MCLoad", cfg, workers=8, invariants=invs, timeout=6000, on_emit=on_emit)
+        flush()
+        drain(True)
+    finally:
+        pool.close()
+        pool.join()
+    chk.add_tlc(res, label)
+    if res.get("violated"):
+        chk.violation("TLC: Load.tla violates its own invariant: " + res["error"][:600],
+                      {"kind": "tlc", "label": label, "error": res["error"][:3000]})
+        return
+    if not n_seen[0]:
+        raise MachineryError("MCLoad emitted nothing")
 
 
 def replay_file(chk, rp):
@@ -398,7 +417,14 @@ def _classify_worker(batch):
 def classify_all_loadable(chk, tier, procs=12):
     consts = dict(QUICK_CONSTS if tier == "quick" else THOROUGH_CONSTS)
     cfg = tlc.cfg_text(consts, spec="Spec", invariants=["EmitInv"])
-    res = tlc.run("MCLoad", cfg, workers=12, timeout=3000)
+    kept, n = [], [0]
+
+    def on_emit(o):
+        n[0] += 1
+        if tier == "quick" or n[0] % 5 == 0:        # thorough: every 5th of ~6*10^5 configurations
+            kept.append(o)
+    res = tlc.run("MCLoad", cfg, workers=12, timeout=6000, on_emit=on_emit)
+    res["emits"] = kept
     chk.add_tlc(res, "MCLoad (configurations that load, then classify)")
     # judged: datasets on which Load.tla stores at least one water level (with none there is nothing to
     # classify and the code's deliberate "No valid data intervals found" is not held against C01)
@@ -421,8 +447,8 @@ def classify_all_loadable(chk, tier, procs=12):
 
 
 QUICK_CONSTS = {"Ps": "{2, 3}", "Qs": "{1, 2, 3}", "MaxRa": "2", "NRs": "{3, 5}", "MaxZa": "2", "NZs": "{4, 6}", "Emit": "TRUE"}
-THOROUGH_CONSTS = {"Ps": "{2, 3, 6}", "Qs": "{1, 2, 3, 6}", "MaxRa": "3", "NRs": "{3, 5, 7}", "MaxZa": "4",
-                   "NZs": "{3, 5, 7, 9}", "Emit": "TRUE"}
+THOROUGH_CONSTS = {"Ps": "{2, 3, 6}", "Qs": "{1, 2, 3, 6}", "MaxRa": "2", "NRs": "{3, 5, 7}", "MaxZa": "3",
+                   "NZs": "{3, 5, 7}", "Emit": "TRUE"}
 
 
 def replay_load_then_classify(chk, rp):
